@@ -378,6 +378,7 @@ def run(ctx: Ctx):
                         "wrapper_source": (FIFO_SRC.format(N=N, W=W, ARGS="") if kind == "fifo" else STACK_SRC.format(N=N, W=W, MODE=m))})
     ctx.obligation("correspondence: emitted Fifo/Stack designs = Lean step functions on all generated sequences (spec-defined observables)",
                    mismatches == 0, detail=f"{len(tasks)} sequences, {mismatches} mismatches")
+    run_delayed(ctx)
 
 
 def mask(kind, line):
@@ -395,6 +396,8 @@ def mask(kind, line):
 
 def replay(ctx, data):
     r = data["replay"]
+    if r.get("kind") == "dfifo":
+        return replay_delayed(ctx, r)
     kind, N, W, m, ops = r["kind"], r["N"], r["W"], r["mode"], r["ops"]
     src = FIFO_SRC.format(N=N, W=W, ARGS="") if kind == "fifo" else STACK_SRC.format(N=N, W=W, MODE=m)
     c = compile_many([(src, "W")])[0]
@@ -415,3 +418,442 @@ def replay(ctx, data):
 def _sim_task(t):
     kind, vhdl, ops = t
     return sim_fifo((vhdl, ops)) if kind == "fifo" else sim_stack((vhdl, ops))
+
+
+# ===================================================================================================
+# C14 extension: DELAYED Fifo (tx_delay / rx_delay != 0): producer and consumer in different contexts
+# ===================================================================================================
+
+from collections import deque
+
+DFIFO_SRC = '''
+import cohdl
+from cohdl import std, Bit, BitVector, Unsigned, Port
+
+class W(cohdl.Entity):
+    clk = Port.input(Bit)
+    en_p = Port.input(Bit)
+    en_c = Port.input(Bit)
+    push = Port.input(Bit)
+    pop = Port.input(Bit)
+    data_in = Port.input(Unsigned[{W}])
+    full_s = Port.output(Bit)
+    empty_s = Port.output(Bit)
+    full_r = Port.output(Bit)
+    empty_r = Port.output(Bit)
+    full_o = Port.output(Bit)
+    empty_o = Port.output(Bit)
+    front = Port.output(Unsigned[{W}])
+    data_out = Port.output(Unsigned[{W}])
+
+    def architecture(self):
+        ctx_p = std.SequentialContext(std.Clock(self.clk), step_cond=lambda: self.en_p)
+        ctx_c = std.SequentialContext(std.Clock(self.clk), step_cond=lambda: self.en_c)
+        fifo = std.Fifo[Unsigned[{W}], {N}](tx_delay={TXD}, rx_delay={RXD})
+
+        @std.concurrent
+        def logic():
+            self.full_o <<= fifo.full()
+            self.empty_o <<= fifo.empty()
+            self.front <<= fifo.front()
+
+{BODY}
+'''
+
+# the occupancy is queried once before the first push / pop of the context (resolved through the *_indirect
+# signal) and afterwards again (resolved directly)
+DFIFO_BODY = {
+    "act-first": '''
+        @ctx_p
+        def prod():
+            if self.push:
+                if not fifo.full():
+                    fifo.push(self.data_in)
+            with cohdl.always:
+                self.full_s <<= fifo.full()
+                self.empty_s <<= fifo.empty()
+
+        @ctx_c
+        def cons():
+            if self.pop:
+                if not fifo.empty():
+                    self.data_out <<= fifo.pop()
+            with cohdl.always:
+                self.full_r <<= fifo.full()
+                self.empty_r <<= fifo.empty()
+''',
+    # full() / empty() queried TWICE before the first push / pop of the context
+    "check-first": '''
+        @ctx_p
+        def prod():
+            with cohdl.always:
+                self.full_s <<= fifo.full()
+                self.empty_s <<= fifo.empty()
+            if self.push:
+                if not fifo.full():
+                    fifo.push(self.data_in)
+
+        @ctx_c
+        def cons():
+            with cohdl.always:
+                self.full_r <<= fifo.full()
+                self.empty_r <<= fifo.empty()
+            if self.pop:
+                if not fifo.empty():
+                    self.data_out <<= fifo.pop()
+''',
+}
+
+DOBS = ("full_s", "empty_s", "full_r", "empty_r", "full_o", "empty_o", "front", "data_out")
+
+
+def d_apply(d, tok):
+    p, c = tok.split(":")
+    d.set("en_p", 1 if p[0] in "ip" else 0)
+    d.set("push", 1 if p[0] == "p" else 0)
+    d.set("data_in", int(p[1:]) if p[0] == "p" else 0)
+    d.set("en_c", 1 if c in "uo" else 0)
+    d.set("pop", 1 if c == "o" else 0)
+
+
+def d_new(vhdl):
+    d = Design(vhdl)
+    for p in ("clk", "en_p", "en_c", "push", "pop", "data_in"):
+        d.set(p, 0)
+    d.initialise()
+    return d
+
+
+def d_obs(d):
+    return tuple(d.get(p) for p in DOBS) + (len(d.asserts_failed),)
+
+
+def d_explore_task(task):
+    from .c15 import _snapshot, _restore, _key
+    vhdl, toks, limit = task
+    d = d_new(vhdl)
+    ids = {_key(d): 0}
+    snaps, obs, edges = [_snapshot(d)], [d_obs(d)], [{}]
+    queue = deque([0])
+    hit = False
+    while queue:
+        n = queue.popleft()
+        for tok in toks:
+            _restore(d, snaps[n])
+            d.asserts_failed = []
+            d_apply(d, tok)
+            d.settle()
+            d.clock()
+            k = _key(d) + (len(d.asserts_failed),)
+            m = ids.get(k)
+            if m is None:
+                if len(ids) >= limit:
+                    hit = True
+                    continue
+                m = len(ids)
+                ids[k] = m
+                snaps.append(_snapshot(d))
+                obs.append(d_obs(d))
+                edges.append({})
+                queue.append(m)
+            edges[n][tok] = m
+    return {"obs": obs, "edges": edges, "limit": hit}
+
+
+def d_trace_task(task):
+    vhdl, toks = task
+    d = d_new(vhdl)
+    out = [d_obs(d)]
+    for tok in toks:
+        d.asserts_failed = []
+        d_apply(d, tok)
+        d.settle()
+        d.clock()
+        out.append(d_obs(d))
+    return out
+
+
+def d_monitor(queue, N, o0, o1, tok):
+    """abstract queue (independent of the Lean mirror).  -> (queue', pushed, popped, violation | None)"""
+    p, c = tok.split(":")
+    if None in o1[:6]:
+        return queue, False, False, "an occupancy indication is undefined ('U')"
+    if o1[8]:
+        return queue, False, False, "an assertion of the emitted design fired (writing to full / reading from empty fifo)"
+    pushed = p[0] == "p" and not o0[0]
+    popped = c == "o" and not o0[3]
+    if popped:
+        if not queue:
+            return queue, pushed, popped, "pop accepted (receiver saw not-empty) although the fifo holds no element (underflow)"
+        if o1[7] != queue[0]:
+            return queue, pushed, popped, f"popped {o1[7]} where {queue[0]} is the oldest element"
+        queue = queue[1:]
+    if pushed:
+        queue = queue + (int(p[1:]),)
+        if len(queue) > N - 1:
+            return queue, pushed, popped, "push accepted (sender saw not-full) although the fifo holds N-1 elements (overflow)"
+    if queue and o1[6] != queue[0]:
+        return queue, pushed, popped, f"front shows {o1[6]} where {queue[0]} is the oldest element"
+    if not o1[0] and len(queue) >= N - 1:
+        return queue, pushed, popped, "sender sees not-full although the fifo is full (not conservative)"
+    if not o1[3] and not queue:
+        return queue, pushed, popped, "receiver sees not-empty although the fifo is empty (not conservative)"
+    return queue, pushed, popped, None
+
+
+def d_fmt(v):
+    return "-" if v is None else str(int(v))
+
+
+def d_check_property(graph, N, toks):
+    from .c15 import path_to
+    obs, edges = graph["obs"], graph["edges"]
+    start = (0, ())
+    prev = {start: None}
+    q = deque([start])
+    while q:
+        cur = q.popleft()
+        n, fq = cur
+        for tok in toks:
+            m = edges[n].get(tok)
+            if m is None:
+                continue
+            fq2, _, _, viol = d_monitor(fq, N, obs[n], obs[m], tok)
+            if viol:
+                return path_to(prev, cur) + [tok], viol
+            nxt = (m, fq2)
+            if nxt not in prev:
+                prev[nxt] = (cur, tok)
+                q.append(nxt)
+    return None
+
+
+def d_check_corr(graphs, cfgs, tokss):
+    from .c15 import path_to
+    frontier, seen, prev, bad, pairs = [], set(), {}, {}, 0
+    for cfg in cfgs:
+        N, t, r = cfg[0], cfg[2], cfg[3]
+        init = f"{'0' * (t + 1)} {'0' * (r + 1)} 0 0 0 0 0 0 - {','.join(['-'] * N)}"
+        node = (cfg, 0, init)
+        seen.add(node)
+        prev[node] = None
+        frontier.append(node)
+    while frontier:
+        reqs, meta = [], []
+        for node in frontier:
+            cfg, n, ms = node
+            if cfg in bad:
+                continue
+            for tok in tokss[cfg]:
+                m = graphs[cfg]["edges"][n].get(tok)
+                if m is not None:
+                    reqs.append(f"dstep {cfg[0]} {ms} {tok}")
+                    meta.append((node, tok, m))
+        ans = lean_io.query("C14", reqs)
+        frontier = []
+        for (node, tok, m), a in zip(meta, ans):
+            cfg, n, ms = node
+            if cfg in bad:
+                continue
+            pairs += 1
+            o1 = graphs[cfg]["obs"][m]
+            if a == "bad-op":
+                bad[cfg] = (path_to(prev, node) + [tok], "bad-op", str(o1))
+                continue
+            st, out = a.split(" | ")
+            f = out.split(" ")
+            exp = f[:7] + [st.split(" ")[8]]
+            got = [d_fmt(x) for x in o1[:8]]
+            if exp != got:
+                bad[cfg] = (path_to(prev, node) + [tok], " ".join(exp), " ".join(got))
+                continue
+            nxt = (cfg, m, st)
+            if nxt not in seen:
+                seen.add(nxt)
+                prev[nxt] = (node, tok)
+                frontier.append(nxt)
+    return bad, pairs
+
+
+def d_gen(rng, length, W):
+    rp, rc = rng.choice([(1.0, 1.0), (0.5, 0.5), (0.9, 0.25), (0.25, 0.9), (0.1, 1.0), (1.0, 0.1)])
+    pp, po = rng.choice([(0.5, 0.5), (0.9, 0.3), (0.3, 0.9), (1.0, 1.0), (0.8, 0.8)])
+    k = rng.randrange(1 << W)
+    toks = []
+    for _ in range(length):
+        if rng.random() < 0.02:
+            rp, rc = rng.choice([(1.0, 1.0), (0.5, 0.5), (0.9, 0.25), (0.25, 0.9), (0.05, 1.0), (1.0, 0.05)])
+            pp, po = rng.choice([(0.5, 0.5), (0.9, 0.3), (0.3, 0.9), (1.0, 1.0)])
+        if rng.random() < rp:
+            if rng.random() < pp:
+                p = f"p{k}"
+                k = (k + 1) % (1 << W)   # consecutive pushes carry consecutive values
+            else:
+                p = "i"
+        else:
+            p = "-"
+        c = ("o" if rng.random() < po else "u") if rng.random() < rc else "-"
+        toks.append(f"{p}:{c}")
+    return toks
+
+
+def d_check_trace(N, toks, trace, model_line):
+    """-> (clock, message, is_property_violation) | None"""
+    fq = ()
+    cells = model_line.split(";")
+    for k, tok in enumerate(toks):
+        fq, pushed, popped, viol = d_monitor(fq, N, trace[k], trace[k + 1], tok)
+        if viol:
+            return k, viol, True
+        exp = cells[k].split(" ")[:8]
+        got = [d_fmt(x) for x in trace[k + 1][:8]]
+        if exp != got:
+            return k, f"model `{' '.join(exp)}` design `{' '.join(got)}` (fullS emptyS fullR emptyR fullO emptyO front dout)", False
+    return None
+
+
+def d_variant(cfg):
+    return cfg[4] if len(cfg) > 4 else "act-first"
+
+
+def d_name(cfg):
+    return f"dfifo:N={cfg[0]}:W={cfg[1]}:tx={cfg[2]}:rx={cfg[3]}" + (":check-first" if d_variant(cfg) == "check-first" else "")
+
+
+def d_src(cfg):
+    return DFIFO_SRC.format(N=cfg[0], W=cfg[1], TXD=cfg[2], RXD=cfg[3], BODY=DFIFO_BODY[d_variant(cfg)])
+
+
+def run_delayed(ctx):
+    from .c15 import shrink
+    rng = ctx.rng
+    ex_cfgs = [(N, 1, t, r) for N in (2, 3) for (t, r) in ((1, 1), (1, 2), (2, 1), (0, 1), (1, 0))]
+    ex_cfgs += [(2, 1, 1, 1, "check-first"), (3, 1, 2, 1, "check-first")]
+    if not ctx.quick:
+        ex_cfgs += [(N, 1, t, r) for N in (2, 3) for (t, r) in ((2, 2), (3, 1), (1, 3), (3, 3))] + [(4, 1, 1, 1)]
+    rnd_cfgs = [(N, 3, t, r) for N in (2, 3, 4, 5, 8) for t in (1, 2, 3) for r in (1, 2, 3)]
+    if ctx.quick:
+        rnd_cfgs = [c for c in rnd_cfgs if (c[0] + c[2] + c[3]) % 2 == 0 or c[0] == 8]
+    rnd_cfgs += [(4, 3, 0, 2), (5, 3, 2, 0)]
+    allc = ex_cfgs + rnd_cfgs
+    compiled = dict(zip(allc, compile_many([(d_src(c), "W") for c in allc])))
+    ok = []
+    for c in allc:
+        if not compiled[c]["ok"]:
+            r = compiled[c]
+            ctx.report(f"compile:{d_name(c)}", f"delayed Fifo wrapper {d_name(c)} is rejected: {r['errtype']}: {r['err'][-200:]}",
+                       {"kind": "dfifo", "config": list(c), "schedule": [], "wrapper_source": d_src(c), "error": r})
+        else:
+            ok.append(c)
+    limit = ctx.scale(2500, 12000)
+    ex = [c for c in ex_cfgs if c in ok]
+    toks = [f"{p}:{c}" for p in ("-", "i", "p0", "p1") for c in ("-", "u", "o")]
+    tokss = {c: toks for c in ex}
+    res = fork_map(d_explore_task, [(compiled[c]["vhdl"], toks, limit) for c in ex], fresh=False, chunk=1)
+    graphs, prop_bad = {}, {}
+    for c, r in zip(ex, res):
+        if r[0] != "ok":
+            ctx.report(f"sim-error:{d_name(c)}", f"emitted VHDL of {d_name(c)} cannot be executed: {r[1]}",
+                       {"kind": "dfifo", "config": list(c), "schedule": [], "wrapper_source": d_src(c), "error": r[1]})
+            continue
+        graphs[c] = r[1]
+        for n, e in enumerate(r[1]["edges"]):
+            for tok in e:
+                ctx.case(key=("dfifo", c, n, tok), nontrivial=tok[0] == "p" or tok.endswith("o"), kind=f"dfifo-graph:N={c[0]}")
+        v = d_check_property(r[1], c[0], toks)
+        if v:
+            prop_bad[c] = v
+            sched, msg = v
+            sig = f"{d_name(c)}:{' '.join(sched)}"
+            if "undefined" in msg:
+                sig = "dfifo:occupancy-indication-undefined"
+            ctx.report(sig, f"{d_name(c)}: after `{' '.join(sched)}` (P:C per clock; P = - no tick | i idle | p<v> push, C = - | u no pop | o pop): {msg}",
+                       {"kind": "dfifo", "config": list(c), "schedule": sched, "message": msg, "wrapper_source": d_src(c)})
+    ns = sum(len(g["obs"]) for g in graphs.values())
+    ne = sum(len(e) for g in graphs.values() for e in g["edges"])
+    trunc = [d_name(c) for c, g in graphs.items() if g["limit"]]
+    ctx.obligation("delayed Fifo: queue monitor (order, content, no overflow / underflow, conservative occupancy) holds on the explored state graph of every small configuration",
+                   not prop_bad, detail=f"{len(graphs)} designs, {ns} states, {ne} transitions; breadth-first prefix only (limit {limit} states) for {trunc}")
+    bad, pairs = d_check_corr(graphs, [c for c in ex if c in graphs], tokss)
+    for c, (sched, exp, got) in bad.items():
+        if c in prop_bad:
+            continue
+        ctx.report(f"corr:{d_name(c)}:{' '.join(sched)}",
+                   f"{d_name(c)}: after `{' '.join(sched)}` the design shows `{got}` where CohdlVerif.C14.DFifo.step gives `{exp}` "
+                   "(fullS emptyS fullR emptyR fullO emptyO front dout); the queue monitor found no failing schedule",
+                   {"kind": "dfifo", "config": list(c), "schedule": sched, "expected": exp, "observed": got, "wrapper_source": d_src(c),
+                    "correspondence": "emitted delayed Fifo = CohdlVerif.C14.DFifo.step (C14.fifo_delayed_* speak about that model)"},
+                   no_failing_input=True)
+    ctx.obligation("delayed Fifo correspondence: every explored (design state, model state) transition agrees with CohdlVerif.C14.DFifo.step",
+                   not bad, detail=f"{pairs} transitions of the product, {len(bad)} designs disagree")
+
+    n_seq = ctx.scale(2, 6)
+    length = ctx.scale(400, 1500)
+    tasks, reqs, meta = [], [], []
+    for c in [c for c in rnd_cfgs if c in ok]:
+        for _ in range(n_seq):
+            sched = d_gen(rng, length, c[1])
+            tasks.append((compiled[c]["vhdl"], sched))
+            reqs.append(f"dfifo {c[0]} {c[2]} {c[3]} " + " ".join(sched))
+            meta.append((c, sched))
+    model = lean_io.query("C14", reqs)
+    impl = fork_map(d_trace_task, tasks, fresh=False, chunk=4)
+    rbad = 0
+    for (c, sched), mo, im, task in zip(meta, model, impl, tasks):
+        if im[0] != "ok":
+            ctx.report(f"sim-error:{d_name(c)}", f"emitted VHDL of {d_name(c)} cannot be executed: {im[1]}",
+                       {"kind": "dfifo", "config": list(c), "schedule": [], "wrapper_source": d_src(c), "error": im[1]})
+            rbad += 1
+            continue
+        trace = im[1]
+        npop = sum(1 for k, t in enumerate(sched) if t.endswith("o") and not trace[k][3])
+        ctx.case(key=("dfifo", c, " ".join(sched)), nontrivial=npop >= 5, kind=f"dfifo-random:N={c[0]}",
+                 sample={"config": d_name(c), "schedule": sched[:14], "pops": npop})
+        r = d_check_trace(c[0], sched, trace, mo)
+        if r is None:
+            continue
+        rbad += 1
+        if rbad > 3:
+            continue
+        k, msg, is_prop = r
+
+        def fails(cand, c=c, vhdl=task[0], is_prop=is_prop):
+            tr = d_trace_task((vhdl, cand))
+            mo2 = lean_io.query("C14", [f"dfifo {c[0]} {c[2]} {c[3]} " + " ".join(cand)])[0]
+            r2 = d_check_trace(c[0], cand, tr, mo2)
+            return r2 is not None and r2[2] == is_prop
+
+        small = shrink(sched[: k + 1], fails)
+        tr = d_trace_task((task[0], small))
+        mo2 = lean_io.query("C14", [f"dfifo {c[0]} {c[2]} {c[3]} " + " ".join(small)])[0]
+        k2, msg2, _ = d_check_trace(c[0], small, tr, mo2)
+        sig = f"{'dfifo' if is_prop else 'corr'}:{d_name(c)}:{' '.join(small)}"
+        if "undefined" in msg2:
+            sig = "dfifo:occupancy-indication-undefined"
+        ctx.report(sig, f"{d_name(c)}: after `{' '.join(small)}` at clock {k2}: {msg2}",
+                   {"kind": "dfifo", "config": list(c), "schedule": small, "message": msg2, "wrapper_source": d_src(c),
+                    **({} if is_prop else {"correspondence": "emitted delayed Fifo = CohdlVerif.C14.DFifo.run"})},
+                   no_failing_input=not is_prop)
+    ctx.obligation("delayed Fifo, random schedules (N in 2,3,4,5,8; delays 1..3 and mixed 0): traces = CohdlVerif.C14.DFifo.run and the queue monitor holds",
+                   rbad == 0, detail=f"{len(tasks)} schedules of {length} steps, {rbad} failing")
+    ctx.extra["delayed_fifo"] = {"graph_designs": len(graphs), "states": ns, "transitions": ne, "product_transitions": pairs,
+                                 "random_schedules": len(tasks)}
+
+
+def replay_delayed(ctx, r):
+    cfg = tuple(r["config"])
+    sched = r["schedule"]
+    c = compile_many([(d_src(cfg), "W")])[0]
+    if not c["ok"]:
+        print("wrapper rejected:", c["errtype"], c["err"][-200:])
+        return 1
+    trace = d_trace_task((c["vhdl"], sched))
+    mo = lean_io.query("C14", [f"dfifo {cfg[0]} {cfg[2]} {cfg[3]} " + " ".join(sched)])[0] if sched else ""
+    print("schedule:", " ".join(sched))
+    print("columns : " + " ".join(DOBS) + " asserts")
+    for k, o in enumerate(trace):
+        print(f"  clock {k:3d} {sched[k - 1] if k else 'init':8s}", " ".join(d_fmt(x) for x in o))
+    print("model   :", mo)
+    res = d_check_trace(cfg[0], sched, trace, mo) if sched else None
+    print("result  :", res)
+    return 0 if res is None else 1
